@@ -38,6 +38,7 @@ def run_case(case, drv):
     form = case["form"]
     o, outcome = FU.build_form(case)
     FU.check_fresh_twin(o, case["form"], res)
+    FU.check_query_mutate_query(case, res)
     FU.check_construction(o, res)
     res.features += [f"form:{form}", f"heur:{outcome if outcome in (None, 'ok') else 'raised'}"]
     if outcome not in (None, "ok"):
